@@ -270,7 +270,7 @@ theorem seqAfterUpdate_p {s s' : St} {m : UpdMsg} {b : Bool} {r0 : Rollapp} (h :
   · rename_i prop hg
     dsimp only at e
     have hpa : prop.addr = m.sender := getSeq_addr hg
-    have f1 : Frame s (setSeq s { prop with dishonor := prop.dishonor - min s.p.dishonorSU prop.dishonor }) :=
+    have f1 : Frame s (setSeq s { prop with dishonor := prop.dishonor - min s.sqp.dishonorSU prop.dishonor }) :=
       Frame.of_setSeq (q0 := prop) h.core.uniq hg (by rfl) (by rfl) (by rfl) (by rfl) (by rfl)
     have h1 := h.frame f1
     split at e
@@ -442,7 +442,7 @@ theorem optIn_p {s s' : St} {a : Addr} {v : Bool} (e : optIn s a v = .ok s') :
 
 theorem kick_p {s s' : St} {a : Addr} (h : Roles s) (e : kick s a = .ok s') :
     ∃ k r pa pq, getSeq s a = some k ∧ k.bonded = true ∧ k.optedIn = true ∧ getRa s k.rollapp = some r ∧
-      r.proposer = some pa ∧ a ≠ pa ∧ getSeq s pa = some pq ∧ s.p.kickThr ≤ pq.dishonor ∧
+      r.proposer = some pa ∧ a ≠ pa ∧ getSeq s pa = some pq ∧ s.sqp.kickThr ≤ pq.dishonor ∧
       PFix k.rollapp s s' ∧ propOf s' k.rollapp = some (choose s' k.rollapp) ∧ (choose s' k.rollapp).isSome = true := by
   unfold kick at e
   split at e
